@@ -149,3 +149,12 @@ def register(reg):
         "Trusted: reference values in verif/prims.py:reference (each is attained by a feasible pair or is a closed form, so "
         "'d above the reference' is sound).",
         "DESIGN.md section 4 C11")
+
+    reg("C17",
+        "runtime structural monitor on the tetrahedral mesh factories: positive volumes, volume conservation against the convex hull (exact product for boxes), conforming face pairing, point-coverage sampling, analytic-shape membership, potential values, helper functions vs direct numpy, centre of mass through an express_in history",
+        "330 (quick) / 5 000 (thorough) factory calls over sizes in [1e-2,1e2], the long/medium/short cylinder classes incl. "
+        "length = 2r +- ulp / +-1e-13, boxes with equal sides +- ulp, cubes, subdivision orders 0-3(4), resolution hints 10r..r/30; "
+        "~150 000 tetrahedra and ~26 000 coverage points per quick run; every third case goes through RigidBody.make_* and the "
+        "history com -> express_in -> com / tetrahedra_points.",
+        "Trusted: Qhull hull volume and facets; analytic oracles. Face pairing merges exactly equal vertices only.",
+        "DESIGN.md section 4 C17")
